@@ -579,6 +579,10 @@ class UserTrackingManager:
                 # to start tracking again, the user cannot be removed otherwise
                 # there is a "ghost" user being tracked
                 if tracked_user.queue.empty():
+                    # Unregister right away (not in the done callback of this
+                    # task): a tracking request made before that callback runs
+                    # would otherwise be queued to this ended task and get lost
+                    self._remove_tracked_user(tracked_user)
                     request.handled.set()
                     return
 
@@ -707,7 +711,13 @@ class UserTrackingManager:
             )
 
         finally:
-            self._tracked_users.pop(tracked_user.user.name, None)
+            self._remove_tracked_user(tracked_user)
+
+    def _remove_tracked_user(self, tracked_user: TrackedUser):
+        # Only remove the entry if it (still) belongs to the given object, a new
+        # entry could already have been created for the same user
+        if self._tracked_users.get(tracked_user.user.name) is tracked_user:
+            del self._tracked_users[tracked_user.user.name]
 
     async def _on_state_changed(self, event: ConnectionStateChangedEvent):
         if not isinstance(event.connection, ServerConnection):
